@@ -117,8 +117,8 @@ Definition rec_frac (s : bytes) : option (list Z * bytes) :=
   end.
 Definition is_sep (c : Z) : bool := (c =? 84) || (c =? 116) || (c =? 32).
 
-(** date-time = full-date sep partial-time time-offset, and nothing after it *)
-Definition recognise (s : bytes) : option fields :=
+(** date-time = full-date sep partial-time time-offset at the head of [s], and what follows it *)
+Definition recognise_prefix (s : bytes) : option (fields * bytes) :=
   obind (take4 s) (fun '(y, s) =>
   obind (expect 45 s) (fun s =>
   obind (take2 s) (fun '(mo, s) =>
@@ -135,11 +135,14 @@ Definition recognise (s : bytes) : option fields :=
     obind (take2 s) (fun '(sec, s) =>
     obind (rec_frac s) (fun '(fr, s) =>
     obind (rec_zone s) (fun '(z, s) =>
-    match s with
-    | [] => Some (mk_fields y mo d sep h mi sec fr z)
-    | _ => None
-    end)))))))
+    Some (mk_fields y mo d sep h mi sec fr z, s))))))))
   end))))).
+(** the whole string is a date-time: nothing may follow *)
+Definition recognise (s : bytes) : option fields :=
+  match recognise_prefix s with
+  | Some (f, []) => Some f
+  | _ => None
+  end.
 
 (** * Semantic validity and denotation *)
 Definition zone_offset (z : zone) : Z :=
@@ -155,7 +158,7 @@ Definition valid (f : fields) : bool :=
   && valid_zone (f_zone f).
 
 (** nanoseconds denoted by the fraction digits: the first nine count, the rest is dropped *)
-Fixpoint frac_value (ds : list Z) (k : nat) : Z :=
+Fixpoint frac_value (ds : list Z) (k : nat) {struct k} : Z :=
   match k with
   | O => 0
   | S k' => match ds with [] => 0 | d :: r => d * 10 ^ Z.of_nat k' + frac_value r k' end
